@@ -691,7 +691,7 @@ func init() {
 	regV("(*bytes.Buffer).Reset", func(m *Machine, g *Goroutine, a []Value) Value {
 		p := a[0].(PtrVal)
 		if m.race.on && p.obj != nil {
-			m.raceObj(p.obj, nil, true)
+			m.raceObj(p.obj, p.path, true)
 		}
 		delete(m.builders, p.obj)
 		return nil
@@ -711,7 +711,7 @@ func (m *Machine) writeTo(w Value, s StrVal) {
 		s = StrVal{s: "<sym>"}
 	}
 	if m.race.on {
-		m.raceObj(p.obj, nil, true)
+		m.raceObj(p.obj, p.path, true)
 	}
 	m.builders[p.obj] += s.s
 }
@@ -719,7 +719,7 @@ func (m *Machine) writeTo(w Value, s StrVal) {
 func (m *Machine) builderString(v Value) Value {
 	p := v.(PtrVal)
 	if m.race.on && p.obj != nil {
-		m.raceObj(p.obj, nil, false)
+		m.raceObj(p.obj, p.path, false)
 	}
 	return StrVal{s: m.builders[p.obj]}
 }
